@@ -56,11 +56,21 @@ def upd(ctx, cname, **assume):
 def support(ctx, cname):
     site = HDMQ + ".update"
     tr = upd(ctx, cname)
-    app = [e for e in tr.of("localmut") if e.how == "method:append" and e.name in ("mins", "maxes") and e.func.qualname == site]
-    ctx.anchor(site, "per-feature range collected [%s]" % cname, len(app) == 2, "found %d" % len(app))
+    bh0 = [e for e in q.find_calls(tr, HDMQ + "._build_histograms") if e.func.qualname == site]
+    lo_name = hi_name = None
+    if bh0 and len(bh0[0].args) >= 3:
+        for k, which in ((1, "lo"), (2, "hi")):
+            a_ = bh0[0].args[k].single_atom()
+            if a_ is not None and a_[0] == "loopvar" and a_[2].startswith("$"):
+                if which == "lo":
+                    lo_name = a_[2][1:]
+                else:
+                    hi_name = a_[2][1:]
+    app = [e for e in tr.of("localmut") if e.how == "method:append" and e.name in (lo_name, hi_name) and e.name is not None and e.func.qualname == site]
+    ctx.anchor(site, "per-feature range collected in a loop [%s]" % cname, len(app) == 2, "found %d" % len(app))
     for e in app:
         v = e.value.single_atom()[1][0].single_atom()
-        ok = v is not None and v[0] == "mcall" and v[2] == ("min" if e.name == "mins" else "max")
+        ok = v is not None and v[0] == "mcall" and v[2] == ("min" if e.name == lo_name else "max")
         cat = v[1].single_atom() if ok else None
         ok = ok and cat is not None and cat[0] == "call" and cat[1] == "numpy.concatenate"
         both = False
@@ -70,7 +80,7 @@ def support(ctx, cname):
                 refs = [x for x in parts[1] if _root_attr(_col_base(x)) == "reference"]
                 tst = [x for x in parts[1] if T.mentions(x, lambda a: a == ("param", "X")) and _root_attr(_col_base(x)) != "reference"]
                 both = len(refs) == 1 and len(tst) == 1 and _col_idx(refs[0]) == _col_idx(tst[0]) and _col_idx(refs[0]) is not None
-        ctx.ob("AGREE-support", site, "%s span reference and batch of this update, same feature [%s]" % (e.name, cname), ok and both,
+        ctx.ob("AGREE-support", site, "%s edges span reference and batch of this update, same feature [%s]" % ("lower" if e.name == lo_name else "upper", cname), ok and both,
                "bin edges must be computed from the concatenation of the current reference and the current batch: %s" % q.short(e.value, 160), e)
     bh = q.find_calls(tr, HDMQ + "._build_histograms")
     bh = [e for e in bh if e.func.qualname == site]
@@ -96,7 +106,7 @@ def support(ctx, cname):
         ok = bh[0].args[1:] == bh[1].args[1:] and _root_attr(bh[0].args[0]) == "reference" and T.mentions(bh[1].args[0], lambda a: a == ("param", "X"))
         ctx.ob("AGREE-support", site, "both histograms use the same bin edges [%s]" % cname, ok, "", bh[0])
         mm = [e for e in tr.of("local") if e.name in ("mins", "maxes") and e.func.qualname == site]
-        okl = all(_is_loop_list(a, n) for a, n in zip(bh[0].args[1:], ("mins", "maxes")))
+        okl = all((a.single_atom() or ("",))[0] == "loopvar" for a in bh[0].args[1:3])
         ctx.ob("AGREE-support", site, "the edges passed are the ranges collected in this update [%s]" % cname, okl, q.short(bh[0].args[1], 80), bh[0])
     # _build_histograms
     tb = ctx.trace(cname, "_build_histograms")
@@ -194,10 +204,13 @@ def distance(ctx, cname):
         ok = ok and len(bh) == 2
     ctx.ob("FRM", site, "per-feature distance between reference and batch histograms of the same feature [%s]" % cname, ok, "", dyn[0] if dyn else None)
     if cd and dyn:
-        tot = [e for e in tr.of("local") if e.name == "total_distance" and e.aug is not None and e.func.qualname == site]
-        ok = len(tot) == 1 and tot[0].aug == ("Add", dyn[0].result)
         v = cd[0].value
-        lv = [a for a in T.atoms_of(v, "loopvar") if a[2] == "$total_distance"]
+        lv = [a for a in T.atoms_of(v, "loopvar") if a[2].startswith("$")]
+        acc_name = lv[0][2][1:] if len(lv) == 1 else None
+        tot = [e for e in tr.of("local") if e.name == acc_name and e.aug is not None and e.func.qualname == site]
+        ok = len(tot) == 1 and tot[0].aug == ("Add", dyn[0].result)
+        init = [e for e in tr.of("local") if e.name == acc_name and e.aug is None and e.func.qualname == site]
+        ok = ok and len(init) == 1 and init[0].value == const(0)
         dim = A("_input_col_dim")
         for x in reversed(tr.events[: cd[0].seq]):
             if x.kind == "load" and x.attr == "_input_col_dim":
@@ -205,7 +218,8 @@ def distance(ctx, cname):
                 break
         ok2 = len(lv) == 1 and T.same(v, atom(lv[0]) / dim)
         ctx.ob("FRM", site, "distance = (1/d) * sum of the feature distances [%s]" % cname, ok and ok2, q.short(v, 120), cd[0])
-    ce = [e for e in tr.of("local") if e.name == "current_epsilon" and e.func.qualname == site]
+    # the epsilon of this batch is what is recorded in epsilon_values[total_batches]
+    ce = [e for e in tr.mutations("epsilon_values") if e.how == "setitem" and e.func.qualname == site]
     ok = len(ce) == 1 and cd and T.same(ce[0].value, T.mk_abs(cd[0].value - A("_prev_distance")))
     ctx.ob("FRM", site, "epsilon = |distance - previous distance| [%s]" % cname, bool(ok), q.short(ce[0].value, 120) if ce else "", ce[0] if ce else None)
     if ce:
@@ -264,8 +278,13 @@ def threshold(ctx, cname):
     # scale for the bootstrapped second batch
     tr3 = Evaluator(ctx.prog, ctx.prog.cls(cname), assume={"detect_batch": 2, "_batches_since_reset": 2}).run(
         ctx.prog.method(cname, "_adaptive_threshold"), args=[const("stdev"), P("test_n")])
-    ds = [e for e in tr3.of("local") if e.name == "d_scale"]
-    ctx.ob("FRM", site, "n = 1 for the bootstrapped second batch [%s]" % cname, len(ds) == 1 and ds[0].value == const(1), "")
+    rv3 = tr3.retval
+    ok3 = rv3 is not None and not T.mentions(rv3, lambda a: a in (("attr", "_total_batches"), ("attr", "_lambda")))
+    if ok3:
+        te3 = A("total_epsilon") + q.sub(A("epsilon"), -2)
+        sq = [a for a in rv3.atoms() if a[0] == "call" and a[1] == "sqrt"]
+        ok3 = len(sq) == 1 and T.same(rv3, te3 + A("significance") * atom(sq[0]))
+    ctx.ob("FRM", site, "n = 1 for the bootstrapped second batch (the mean is the running sum itself) [%s]" % cname, ok3, q.short(rv3, 160) if rv3 is not None else "")
     # the call site passes the configured statistic and the batch size
     tr = upd(ctx, cname)
     cs = q.find_calls(tr, HDMQ + "._adaptive_threshold")
@@ -332,7 +351,13 @@ def _is_nodrift_guard(g, ds):
 def hellinger(ctx):
     site = HDMQ + "._hellinger_distance"
     tr = ctx.trace("HDDDM", "_hellinger_distance")
-    aug = [e for e in tr.of("local") if e.name == "f_distance" and e.aug is not None]
+    ra0 = tr.retval.single_atom() if tr.retval is not None else None
+    acc = None
+    if ra0 is not None and ra0[0] == "call" and ra0[1] == "sqrt":
+        la = ra0[2][0].single_atom()
+        if la is not None and la[0] == "loopvar" and la[2].startswith("$"):
+            acc = la[2][1:]
+    aug = [e for e in tr.of("local") if e.name == acc and e.aug is not None]
     ctx.anchor(site, "accumulation over the bins", len(aug) == 1, "")
     if not aug:
         return
@@ -351,5 +376,5 @@ def hellinger(ctx):
     ctx.ob("FRM", site, "all _bins bins are summed", it is not None and it[0] == "call" and it[1] == "range" and tuple(it[2]) == (A("_bins"),), "")
     ra = tr.retval.single_atom() if tr.retval is not None else None
     ctx.ob("FRM", site, "distance is the square root of the sum", ra is not None and ra[0] == "call" and ra[1] == "sqrt" and (ra[2][0].single_atom() or ("",))[0] == "loopvar", "")
-    init = [e for e in tr.of("local") if e.name == "f_distance" and e.aug is None]
+    init = [e for e in tr.of("local") if e.name == acc and e.aug is None]
     ctx.ob("FRM", site, "sum starts at 0", len(init) == 1 and init[0].value == const(0), "")
